@@ -1,6 +1,7 @@
 package main
 
 import (
+	"time"
 	"context"
 	"fmt"
 	"regexp"
@@ -211,30 +212,53 @@ func (e *Env) discharge(ob *Obligation) {
 	res := runSolver(context.Background(), solvers[0], script, first)
 	<-solverSlots
 	if res.Verdict == Unknown {
-		solverSlots <- struct{}{}
-		r2 := raceSolvers(script, e.timeoutMs, []int{0, 1, 2, 3})
-		<-solverSlots
-		r2.Time += res.Time
-		if r2.Verdict == Unknown {
-			r2.Solver = res.Solver + ":unknown," + r2.Solver
+		// race: the full script on every solver, and (sound: fewer assumptions) the two
+		// relevance-pruned scripts on the z3 variants; an unsat from any of them proves the
+		// obligation, a sat counts only from the full script
+		type job struct {
+			script string
+			solver int
+			tag    string
+			full   bool
 		}
-		res = r2
-		// relevance pruning: drop quantified assumptions unrelated to the goal (sound: fewer
-		// assumptions); two widening rounds
-		for round := 1; round <= 2 && res.Verdict == Unknown; round++ {
-			pruned := pruneScript(script, round)
-			if pruned == "" {
+		jobs := []job{{script, 0, "", true}, {script, 1, "", true}, {script, 2, "", true}, {script, 3, "", true}}
+		for round := 1; round <= 2; round++ {
+			if pruned := pruneScript(script, round); pruned != "" && pruned != script {
+				tag := fmt.Sprintf("(pruned-%d)", round)
+				jobs = append(jobs, job{pruned, 0, tag, false}, job{pruned, 3, tag, false}, job{pruned, 1, tag, false})
+			}
+		}
+		ctx, cancel := context.WithCancel(context.Background())
+		type jres struct {
+			r SolveResult
+			j job
+		}
+		ch := make(chan jres, len(jobs))
+		solverSlots <- struct{}{}
+		for _, j := range jobs {
+			go func(j job) { ch <- jres{runSolver(ctx, solvers[j.solver], j.script, e.timeoutMs), j} }(j)
+		}
+		var tried []string
+		r2 := SolveResult{Verdict: Unknown}
+		t0 := time.Now()
+		for range jobs {
+			x := <-ch
+			if x.r.Verdict == Unsat || (x.r.Verdict == Sat && x.j.full) {
+				r2 = x.r
+				r2.Solver += x.j.tag
 				break
 			}
-			solverSlots <- struct{}{}
-			r3 := raceSolvers(pruned, e.timeoutMs, []int{0, 1, 3})
-			<-solverSlots
-			if r3.Verdict == Unsat {
-				r3.Time += res.Time
-				r3.Solver += fmt.Sprintf("(pruned-%d)", round)
-				res = r3
+			if x.j.full {
+				tried = append(tried, fmt.Sprintf("%s:%s:%.2fs", x.r.Solver, x.r.Verdict, x.r.Time))
 			}
 		}
+		cancel()
+		<-solverSlots
+		r2.Time = time.Since(t0).Seconds() + res.Time
+		if r2.Verdict == Unknown {
+			r2.Solver = res.Solver + ":unknown," + strings.Join(tried, ",")
+		}
+		res = r2
 		if res.Verdict == Unknown {
 			// the same query without quantified assumptions: if that is unsat the obligation is
 			// proved from fewer assumptions; if sat, its model is a diagnostic hint only
